@@ -59,6 +59,14 @@ func c01Corpus() []c01issCase {
 		// the leader fails in the issuer, one waiter is cancelled, the last one issues
 		{Threads: []c01issThread{th("renew", c01nmCanon), {Prog: "renew", Name: c01nmCanon, Async: true}, th("renew", c01nmCanon)}, Seeds: []c01issSeed{{c01nmCanon, "due"}}, Policy: "seq",
 			Pause: map[string]string{"0": "IssueEnd:"}, Faults: map[string]int{"0:IssueEnd:": c01fErr}, CancelWait: map[string]int{"1": 2}, Class: "generic"},
+		// on-demand TLS handshakes (getCertDuringHandshake -> obtainOnDemandCertificate) in the mix: the SNI is
+		// converted with idna.Lookup, so Unicode and upper-case clients use the canonical keys
+		{Threads: []c01issThread{th("handshake", c01nmCanon), th("manage", c01nmCanon)}, Policy: "rr", Class: "generic"},
+		{Threads: []c01issThread{th("obtain", c01nmCanon), th("handshake", "A.Example"), th("manage", c01nmCanon)}, Policy: "seq", Pause: map[string]string{"0": "IssueEnd:"},
+			Faults: map[string]int{"0:IssueEnd:": c01fPanic}, Class: "generic"},
+		{Threads: []c01issThread{th("handshake", c01nmUni), th("manage", c01nmPuny), th("obtain", c01nmPuny)}, Policy: "seq", Pause: map[string]string{"0": "IssueEnd:"}, Class: "generic"},
+		{Threads: []c01issThread{th("handshake", c01nmCanon), th("obtain", c01nmCanon)}, Seeds: []c01issSeed{{c01nmCanon, "fresh"}}, Policy: "rr", Class: "generic"},
+		{Threads: []c01issThread{th("manage", c01nmCanon), th("handshake", c01nmCanon)}, Policy: "seq", Pause: map[string]string{"0": "Store:.crt"}, Backend: "file", Class: "generic"},
 		// the real FileStorage Locker behind the gate: its lock file name is Safe(lock key), so upper- and
 		// lower-case callers of ObtainCertSync share one lock there (they do not on a raw-key Locker)
 		{Threads: []c01issThread{th("obtain", c01nmUpper), th("obtain", c01nmCanon)}, Policy: "seq", Pause: map[string]string{"0": "IssueEnd:"}, Backend: "file", Class: "generic"},
@@ -170,6 +178,16 @@ func c01Random(r *rand.Rand, tier string) c01issCase {
 		t.IssDue = r.Intn(8) == 0
 		cs.Threads = append(cs.Threads, t)
 	}
+	// an on-demand handshake among the requests (one per case: handshakes of one process for one name wait
+	// for each other in memory before they reach the storage lock). Not with due certificates around: the
+	// handshake would renew them in a background goroutine.
+	if !spelling && cs.Class != "manage-load-overlaps-save" && sk != "due" && sk != "mismatch" && r.Intn(5) == 0 {
+		for i := range cs.Threads {
+			cs.Threads[i].IssDue, cs.Threads[i].Force = false, false
+		}
+		h := r.Intn(nth)
+		cs.Threads[h] = c01issThread{Prog: "handshake", Name: []string{c01nmCanon, c01nmCanon, c01nmUpper, " a.example"}[r.Intn(4)], Reuse: r.Intn(4) == 0, NoChk: r.Intn(3) == 0}
+	}
 	cs.Policy = []string{"random", "random", "sticky", "sticky", "rr", "seq"}[r.Intn(6)]
 	if r.Intn(3) == 0 {
 		cs.Pause = map[string]string{fmt.Sprint(r.Intn(nth)): []string{"IssueEnd:", "Store:.crt", "Store:.json", "Unlock:", "Event:cert_obtained"}[r.Intn(5)]}
@@ -201,7 +219,10 @@ func c01Random(r *rand.Rand, tier string) c01issCase {
 		if !spelling {
 			cs.CrashLock = []string{"", "stale"}[r.Intn(2)]
 			if tier == "thorough" { // an empty lock file costs 2 s, a fresh one 10 s
-				cs.CrashLock = []string{"", "stale", "stale", "empty", "empty", "fresh"}[r.Intn(6)]
+				cs.CrashLock = []string{"", "stale", "stale", "empty", "empty", "", "stale", "empty"}[r.Intn(8)]
+				if x := r.Intn(32); x < 2 { // about 11 s each
+					cs.CrashLock = []string{"fresh", "empty-fresh"}[x]
+				}
 			}
 		}
 	}
@@ -218,6 +239,13 @@ func runC01(tier string, seed int64, outdir string, replay string) error {
 		rc, err := loadReplay(replay)
 		if err != nil {
 			return err
+		}
+		if cl, _ := rc.Desc["class"].(string); cl == "free-running" {
+			var fc c01FreeCase
+			if err := json.Unmarshal(rc.In, &fc); err != nil {
+				return err
+			}
+			return c01FreeEmit(w, fc, 0)
 		}
 		var cs c01issCase
 		if err := json.Unmarshal(rc.In, &cs); err != nil {
@@ -259,6 +287,19 @@ func runC01(tier string, seed int64, outdir string, replay string) error {
 			return fmt.Errorf("corpus case fresh lock of a dead holder: %v", err)
 		}
 		c01Emit(w, cs, o)
+		// a slow holder: 14 s inside the issuer (beyond the staleness bound of 10 s); the waiter must still be
+		// waiting afterwards because the holder's lock file is kept fresh
+		cs = c01issCase{Threads: []c01issThread{{Prog: "obtain", Name: c01nmCanon}, {Prog: "obtain", Name: c01nmCanon}}, Policy: "seq",
+			Pause: map[string]string{"0": "IssueEnd:"}, HoldMs: map[string]int{"0": 14000}, Backend: "file", Class: "generic"}
+		o, err = c01RunIssCase(cs)
+		if err != nil {
+			return fmt.Errorf("corpus case slow holder: %v", err)
+		}
+		c01Emit(w, cs, o)
+	}
+	// free-running instances on one FileStorage directory (no gate; spec monitor only)
+	if err := c01FreeBatch(w, rand.New(rand.NewSource(seed+991)), map[string]int{"thorough": 25}[tier]+3); err != nil {
+		return err
 	}
 	r := rand.New(rand.NewSource(seed))
 	n := 1100
